@@ -35,6 +35,18 @@ def generate(rng, tier):
         if durs:
             t1, t2 = rng.choice(ts), rng.choice(ts)
             out.append((f"traj {mode} {hx(blk)} p{t1} d v{t2} d a{t1} d D", True))
+    # a raw block longer than 65535 bytes (the buffer interface takes a size_t length; a .skyb block cannot be that long):
+    # segment offsets beyond 65535 are offsets like any other
+    from vlib.gen_traj import i16, u16, f2b
+    nseg = 14000                                                           # 5 bytes each: 70009 bytes, offset 65536 is segment 13105
+    big = bytearray([1]) + i16(0) + i16(0) + i16(0) + i16(0)
+    for k in range(nseg):
+        big += bytes([0x01]) + u16(7) + i16((k * 3 + 3) % 30000)          # x linear, 7 ms each
+    assert len(big) > 65536 + 1000
+    total = nseg * 7
+    qs = [f"p{f2b(t)}" for t in (1.0, 91.0, 91.73, 91.7385, 91.75, 92.5, total / 1000.0 - 0.0035, total / 1000.0 + 1.0)]
+    out.append((f"traj b {hx(bytes(big))} " + " ".join(qs) + " d", True))
+    out.append((f"traj o {hx(bytes(big))} D E e", True))
     # all degree combinations on a two-segment trajectory
     for dx in range(4):
         for dy in range(4):
